@@ -293,34 +293,48 @@ def collect():
     # VersionRange.__contains__ of range class R / by VersionConstraint.__contains__
     guard_range = {}
     guard_constraint = {}
+
+    def classify(f):
+        try:
+            r = f()
+            return "GPass" if isinstance(r, bool) else "GOther"
+        except TypeError:
+            return "GTypeError"
+        except ValueError:
+            return "GValueError"
+        except Exception:
+            return "GOther"
+
+    def merge(outs):
+        outs = set(outs)
+        if len(outs) == 1:
+            return outs.pop()
+        # a guard that depends on the comparator or on the shape of the range: keep the most permissive answer
+        for k in ("GPass", "GOther", "GValueError", "GTypeError"):
+            if k in outs:
+                return k
+
     for R in rclasses:
         if R.version_class is None:
             continue
-        own = samples[R.version_class][0]
-        rng = R(constraints=[vc.VersionConstraint(comparator=">=", version=own)])
-        con = vc.VersionConstraint(comparator=">=", version=own)
+        own = samples[R.version_class]
+        cons = []
+        for c in comps:
+            if c == "*":
+                cons.append(vc.VersionConstraint(comparator="*", version_class=R.version_class))
+            else:
+                cons.append(vc.VersionConstraint(comparator=c, version=own[0]))
+        rngs = [R(constraints=[c]) for c in cons]
+        if len(own) > 1 and own[0] != own[1]:
+            # multi-constraint shapes: only points, and interval
+            rngs.append(R(constraints=[vc.VersionConstraint(comparator="=", version=own[0]), vc.VersionConstraint(comparator="=", version=own[1])]))
+            rngs.append(R(constraints=[vc.VersionConstraint(comparator="!=", version=own[0]), vc.VersionConstraint(comparator="!=", version=own[1])]))
+            lo, hi = (own[0], own[1]) if own[0] < own[1] else (own[1], own[0])
+            rngs.append(R(constraints=[vc.VersionConstraint(comparator=">=", version=lo), vc.VersionConstraint(comparator="<", version=hi)]))
         for B in vclasses:
             b = samples[B][0]
-            try:
-                r = b in rng
-                guard_range[(R.__name__, B.__name__)] = "GPass" if isinstance(r, bool) else "GOther"
-            except TypeError:
-                guard_range[(R.__name__, B.__name__)] = "GTypeError"
-            except ValueError:
-                guard_range[(R.__name__, B.__name__)] = "GValueError"
-            except Exception:
-                guard_range[(R.__name__, B.__name__)] = "GOther"
-            try:
-                r = b in con
-                guard_constraint[(R.__name__, B.__name__)] = (
-                    "GPass" if isinstance(r, bool) else "GOther"
-                )
-            except ValueError:
-                guard_constraint[(R.__name__, B.__name__)] = "GValueError"
-            except TypeError:
-                guard_constraint[(R.__name__, B.__name__)] = "GTypeError"
-            except Exception:
-                guard_constraint[(R.__name__, B.__name__)] = "GOther"
+            guard_range[(R.__name__, B.__name__)] = merge(classify(lambda: b in rng) for rng in rngs)
+            guard_constraint[(R.__name__, B.__name__)] = merge(classify(lambda: b in con) for con in cons)
     T["guard_range"] = guard_range
     T["guard_constraint"] = guard_constraint
 
